@@ -235,6 +235,21 @@ def mutations(request: List[Any], leaf_depth: int, rng: random.Random) -> List[T
         out.append((f"drop@{i}", m))
     for i in range(1, n):
         out.append((f"truncate@{i}", list(request[:i])))
+    # names of components that travel as PARAMETERS of a handler (folder / file / user names ...): misspelt and empty
+    def names_component(v) -> bool:
+        # (addresses, numbers and other VALUES are not component names: a malformed value is outside the statement)
+        if not isinstance(v, str) or not v or v[0].isdigit() or v.upper() in ("ALL", "NONE", "PERMIT", "DENY", "TRUE", "FALSE"):
+            return False
+        return all(ch.isalnum() or ch in "-_. " for ch in v)
+
+    for i in range(n, len(request)):
+        if names_component(request[i]):
+            m = list(request)
+            m[i] = f"{m[i]}_zz"
+            out.append((f"param-misspell@{i}", m))
+            m = list(request)
+            m[i] = ""
+            out.append((f"param-empty@{i}", m))
     return out
 
 
